@@ -1598,7 +1598,13 @@ static string opLts(const vector<string>& a)
 {
 	size_t n = toN(a.at(0));
 	ExplicitLTS lts(n);
+	// optional 7th argument `st=<k>`: the system is built in two stages – k edges, init(), the remaining edges (labels and
+	// states that exist already), init() again – as a client does that extends a system between two simulation computations
+	size_t stage = static_cast<size_t>(-1);
+	if (a.size() > 6 && a.at(6).compare(0, 3, "st=") == 0) stage = toN(a.at(6).substr(3));
+	size_t cnt = 0;
 	if (a.at(1) != "-") for (const string& e : split(a.at(1), ';')) {
+		if (cnt++ == stage) lts.init();
 		vector<string> f = split(e, ',');
 		lts.addTransition(toN(f.at(0)), toN(f.at(1)), toN(f.at(2)));
 	}
